@@ -46,7 +46,7 @@ def rule_selection(ctx):
     res = {}
     for bi, b in enumerate(f.blocks):
         for s in b["s"]:
-            if s["k"] == "assign" and s["p"]["l"] == 0 and s["r"]["k"] == "agg" and s["r"].get("def") == SFR:
+            if s["k"] == "assign" and s["p"]["l"] in Q.ret_locals(f) and s["r"]["k"] == "agg" and s["r"].get("def") == SFR:
                 res.setdefault(s["r"]["variant"], []).append(bi)
     ctx.ob(R, "result sites", set(res) == {"Keep", "DiscardOld", "DiscardNew"}, "returns %s" % sorted(res), f.loc())
     names, tab = W.table(res)
